@@ -102,7 +102,7 @@ def run(eng, tier):
         ('loop-bound', 'B(analysis bound: more than 2 list elements are covered by the per-iteration obligations)', lambda e: e['fact'] is not None and e['fact'][0] == 'is' and e['fact'][1][0] == 'iternext' and e['fact'][2] == 'Some'),
     ]
     def ab(e, kind): return e.get('abort') and e['abort'][0] == kind
-    TA = [('action-name-serialisation', 'D', lambda e: ab(e, 'unwrap') and 'ContractAction' in e['key']),
+    TA = [('action-name-serialisation', 'D', lambda e: is_unit_enum_serialisation(e)),
           ('power-of-ten', 'D(validate: precision <= 18 so 10^p fits and is non-zero)', lambda e: ab(e, 'assert'))]
     mt = check_table(eng, PROP, refs, None, T, TA, 'an instantiate message')
     for name, cls, _ in T:
